@@ -14,6 +14,13 @@ Proof. intros H. destruct sch; [exact H | now inversion H]. Qed.
 Lemma skipn_tl {A} j (l : list A) : skipn j (tl l) = skipn (S j) l.
 Proof. destruct l; [now destruct j | reflexivity]. Qed.
 
+Lemma skipn_skipn' {A} (a b : nat) (l : list A) : skipn a (skipn b l) = skipn (a + b) l.
+Proof.
+  revert l; induction b as [|b IH]; intros l.
+  - now rewrite Nat.add_0_r.
+  - rewrite Nat.add_succ_r. destruct l; [now rewrite !skipn_nil | cbn [skipn]; apply IH].
+Qed.
+
 Lemma zlen_app {A} (a b : list A) : zlen (a ++ b) = zlen a + zlen b.
 Proof. unfold zlen. rewrite app_length. lia. Qed.
 
@@ -88,9 +95,8 @@ Proof.
   rewrite recv_exact_eq. destruct (zlen acc =? want); [discriminate|].
   rewrite recv_eq. set (k := recv_k (want - zlen acc) st sch).
   destruct (firstn k st) as [|x xs] eqn:Ed; [discriminate|].
-  apply IH. apply firstn_nonempty_pos in Ed. rewrite skipn_length.
-  assert (1 <= length st)%nat; [|lia].
-  destruct st; [now destruct k | cbn [length]; lia].
+  assert (1 <= length st)%nat by (destruct st; [rewrite firstn_nil in Ed; discriminate | cbn [length]; lia]).
+  apply IH. apply firstn_nonempty_pos in Ed. rewrite skipn_length. lia.
 Qed.
 
 (* positive chunks, enough bytes: the loop returns exactly the bytes wanted and leaves the rest *)
@@ -143,8 +149,8 @@ Proof.
   rewrite <- Ed. apply IH.
   - now apply pos_sched_tl.
   - rewrite zlen_app. unfold zlen in *. rewrite firstn_length, skipn_length. lia.
-  - apply firstn_nonempty_pos in Ed. rewrite skipn_length.
-    assert (1 <= length st)%nat; [|lia]. destruct st; [now destruct k | cbn [length]; lia].
+  - assert (1 <= length st)%nat by (destruct st; [rewrite firstn_nil in Ed; discriminate | cbn [length]; lia]).
+    apply firstn_nonempty_pos in Ed. rewrite skipn_length. lia.
 Qed.
 
 (* ------------------------------------------------------------------ frames *)
@@ -162,6 +168,14 @@ Proof. now apply bytes_eqb_eq. Qed.
 
 Lemma bytes_eqb_neq a b : a <> b -> bytes_eqb a b = false.
 Proof. intros H. destruct (bytes_eqb a b) eqn:E; [apply bytes_eqb_eq in E; contradiction | reflexivity]. Qed.
+
+(* rewrite with an equation about recv_exact up to conversion of the pair's type annotations *)
+Ltac rewc H :=
+  match type of H with
+  | ?l = _ => match goal with
+              | |- context [recv_exact ?f ?w ?a ?s] => change (recv_exact f w a s) with l; rewrite H
+              end
+  end.
 
 Section WithHash.
   Variable sha256 : bytes -> bytes.
@@ -200,18 +214,18 @@ Section WithHash.
     assert (E4 : slice 20 24 hdr = chk) by (unfold hdr; destr_len Hm; destr_len Hc; destr_len Hl; destr_len Hk; reflexivity).
     assert (E5 : skipn 24 hdr = []) by (rewrite <- Hh; apply skipn_all).
     rewrite E1, E2, E3, E4, E5, Hlen.
+    match goal with |- context [bind ?X _] => set (PL := X) end.
     assert (HB : exists sch' f',
-      (if zlen body =? 0 then Ok ([], (body ++ rest, sch1), f1) else recv_exact f1 (zlen body) [] (body ++ rest, sch1))
-      = Ok (body, (rest, sch'), f') /\ pos_sched sch' /\ (f1 <= f' + length body)%nat /\ exists j, sch' = skipn j sch1).
-    { destruct (Z.eqb_spec (zlen body) 0) as [E0|E0].
+      PL = Ok (body, (rest, sch'), f') /\ pos_sched sch' /\ (f1 <= f' + length body)%nat /\ exists j, sch' = skipn j sch1).
+    { unfold PL. destruct (Z.eqb_spec (zlen body) 0) as [E0|E0].
       - apply zlen_nil_inv in E0. subst body. exists sch1, f1. cbn [app length]. repeat split; auto; try lia; try (now exists 0%nat).
       - destruct (recv_exact_complete f1 (zlen body) [] body rest sch1 Hp1) as (sch2 & f2 & HR2 & Hp2 & Hf2 & _ & j2 & Hj2).
         { unfold zlen; cbn [length]; lia. } { lia. }
         exists sch2, f2. cbn [app] in HR2. repeat split; auto. now exists j2. }
-    destruct HB as (sch' & f' & -> & Hp' & Hf' & j2 & Hj2). cbn [bind].
+    destruct HB as (sch' & f' & HB & Hp' & Hf' & j2 & Hj2).
     exists sch', f'. split; [exact Hp'|]. split; [lia|].
-    split. { exists (j2 + j1)%nat. rewrite Hj2, Hj1. apply skipn_skipn. }
-    rewrite Z.eqb_refl. cbn [negb]. unfold frame_outcome.
+    split. { exists (j2 + j1)%nat. rewrite Hj2, Hj1. apply skipn_skipn'. }
+    rewrite HB. cbn [bind]. rewrite Z.eqb_refl. cbn [negb]. unfold frame_outcome.
     destruct (negb (bytes_eqb chk (checksum4 body))); [reflexivity|].
     destruct (negb (bytes_eqb m magic)); reflexivity.
   Qed.
@@ -237,7 +251,7 @@ Section WithHash.
       rewrite Esl in Ht. rewrite Est.
       destruct (recv_exact_complete fuel msg_header_len [] hdr st' sch Hs) as (sch1 & f1 & HR & Hp1 & Hf1 & _ & _).
       { unfold zlen, msg_header_len. cbn [length]. lia. } { lia. }
-      rewrite HR. cbn [bind app].
+      rewc HR. cbn [bind app].
       replace (skipn 24 hdr) with (@nil byte) by (rewrite <- Hh; symmetry; apply skipn_all).
       assert (0 <= zlen st') by (unfold zlen; lia).
       destruct (Z.eqb_spec (of_le (slice 16 20 hdr)) 0) as [E0|E0].
@@ -262,33 +276,269 @@ Section WithHash.
     assert (Hh : length hdr = 24%nat) by (unfold zlen, msg_header_len in Hw; lia).
     replace (skipn 24 hdr) with (@nil byte) in H by (rewrite <- Hh; symmetry; apply skipn_all).
     set (psz := of_le (slice 16 20 hdr)) in *.
-    assert (HB : exists d, (fuel <= f' + 24 + length d)%nat /\ st1 = d ++ st' /\ zlen d = psz /\
-       (if negb (zlen d =? psz) then Err ValueE
-        else if negb (bytes_eqb (slice 20 24 hdr) (checksum4 d)) then Err ValueE
-        else if negb (bytes_eqb (firstn 4 hdr) magic) then Err ValueE
-        else Ok (firstn 4 hdr, rstrip0 (slice 4 16 hdr), d, (st', sch'), f')) = Ok (m, c, p, (st', sch'), f')).
-    { destruct (Z.eqb_spec psz 0) as [E0|E0].
-      - cbn [bind] in H. exists [].
-        destruct (negb (zlen (@nil byte) =? psz)); [discriminate|].
-        destruct (negb (bytes_eqb (slice 20 24 hdr) (checksum4 []))) eqn:Ec; [discriminate|].
-        destruct (negb (bytes_eqb (firstn 4 hdr) magic)) eqn:Em; [discriminate|].
-        injection H as <- <- <- <- <- <-. cbn [length app]. repeat split; auto; try lia.
-        rewrite E0, Ec, Em. reflexivity.
-      - destruct (recv_exact f1 psz [] st1) as [[[pl [st2 sch2]] f2]|e] eqn:E2; [|discriminate].
-        cbn [bind] in H. destruct st1 as [st1 sch1'].
-        apply recv_exact_ok_inv in E2. destruct E2 as (d & Ed & Est1 & Hf2 & _ & Hw2 & _).
-        cbn [app] in Ed. subst pl.
-        destruct (negb (zlen d =? psz)) eqn:Ez; [discriminate|].
-        destruct (negb (bytes_eqb (slice 20 24 hdr) (checksum4 d))) eqn:Ec; [discriminate|].
-        destruct (negb (bytes_eqb (firstn 4 hdr) magic)) eqn:Em; [discriminate|].
-        injection H as <- <- <- <- <- <-. exists d. rewrite Ez, Ec, Em.
-        injection E1 as <- <-. repeat split; auto. lia. }
-    destruct HB as (d & Hfu & Est1 & Hz & HE).
-    rewrite Hz, Z.eqb_refl in HE. cbn [negb] in HE.
-    destruct (bytes_eqb (slice 20 24 hdr) (checksum4 d)) eqn:Ec; [|discriminate]. cbn [negb] in HE.
-    destruct (bytes_eqb (firstn 4 hdr) magic) eqn:Em; [|discriminate]. cbn [negb] in HE.
-    injection HE as <- <- <-. apply bytes_eqb_eq in Ec, Em.
-    exists hdr. rewrite Est. repeat split; auto.
-    - destruct st1 as [x y]. cbn in *. congruence.
+    match type of H with bind ?X _ = _ => destruct X as [[[pl [st2 sch2]] f2]|e] eqn:E2; [|discriminate] end.
+    cbn [bind] in H.
+    assert (HB : st1 = pl ++ st2 /\ zlen pl = psz /\ (f1 <= f2 + length pl)%nat).
+    { destruct (psz =? 0) eqn:E0.
+      - apply Z.eqb_eq in E0. injection E2 as <- <- <- <-. cbn [app length]. rewrite E0.
+        split; [reflexivity|]. split; [reflexivity | lia].
+      - apply recv_exact_ok_inv in E2. destruct E2 as (d & Ed & Est1 & Hf2 & _ & Hw2 & _).
+        cbn [app] in Ed. subst d. auto. }
+    destruct HB as (Est1 & Hz & Hf2).
+    rewrite Hz, Z.eqb_refl in H. cbn [negb] in H.
+    destruct (bytes_eqb (slice 20 24 hdr) (checksum4 pl)) eqn:Ec; [|discriminate]. cbn [negb] in H.
+    destruct (bytes_eqb (firstn 4 hdr) magic) eqn:Em; [|discriminate]. cbn [negb] in H.
+    injection H as <- <- <- <- <- <-. apply bytes_eqb_eq in Ec, Em.
+    exists hdr. rewrite Est, Est1. repeat split; auto. lia.
+  Qed.
+
+  (* for every stream and every schedule (positive or not): the loops stop within |stream| + 1 recv calls *)
+  Lemma recv_msg_terminates : forall fuel magic st sch,
+    (length st < fuel)%nat -> recv_msg fuel magic (st, sch) <> Err FuelE.
+  Proof.
+    intros fuel magic st sch Hf. unfold P2pFrame.recv_msg.
+    destruct (recv_exact fuel msg_header_len [] (st, sch)) as [[[msg [st1 sch1]] f1]|e] eqn:E1.
+    2:{ cbn [bind]. intros H. injection H as ->. now apply (recv_exact_no_fuelE fuel msg_header_len [] st sch Hf). }
+    cbn [bind]. apply recv_exact_ok_inv in E1. destruct E1 as (d & _ & Est & Hf1 & _ & _ & _).
+    assert (Hl : (length st1 < f1)%nat).
+    { apply (f_equal (@length byte)) in Est. rewrite app_length in Est. lia. }
+    match goal with |- bind ?X _ <> _ => destruct X as [[[pl [st2 sch2]] f2]|e] eqn:E2 end.
+    - cbn [bind]. destruct (negb _); [discriminate|]. destruct (negb _); [discriminate|].
+      destruct (negb _); discriminate.
+    - cbn [bind]. intros H. injection H as ->.
+      destruct (of_le (slice 16 20 msg) =? 0); [discriminate|].
+      now apply (recv_exact_no_fuelE f1 _ _ st1 sch1 Hl) in E2.
+  Qed.
+
+  (* ---------------------------------------------------------------- msg_ser *)
+  Lemma existsb_bytes_In c l : existsb (bytes_eqb c) l = true <-> In c l.
+  Proof.
+    rewrite existsb_exists. split.
+    - intros (x & Hin & E). apply bytes_eqb_eq in E. now subst.
+    - intros H. exists c. split; [exact H | apply bytes_eqb_refl].
+  Qed.
+
+  Lemma commands_wf_b :
+    forallb (fun c => (length c <=? 12)%nat && bytes_eqb (rstrip0 (pad12 c)) c) commands = true.
+  Proof. vm_compute. reflexivity. Qed.
+
+  Lemma command_facts c : In c commands ->
+    (length c <= 12)%nat /\ rstrip0 (pad12 c) = c /\ length (pad12 c) = 12%nat.
+  Proof.
+    intros H. pose proof commands_wf_b as W. rewrite forallb_forall in W. specialize (W c H).
+    apply andb_true_iff in W. destruct W as [W1 W2]. apply Nat.leb_le in W1. apply bytes_eqb_eq in W2.
+    repeat split; auto. unfold pad12. rewrite app_length, repeat_length. lia.
+  Qed.
+
+  Lemma msg_ser_ok m c p : In c commands -> zlen p <= max_size ->
+    msg_ser m c p = Ok (frame m (pad12 c) (to_le 4 (zlen p)) (checksum4 p) p).
+  Proof.
+    intros Hc Hp. unfold P2pFrame.msg_ser.
+    apply existsb_bytes_In in Hc. rewrite Hc. cbn [negb].
+    replace (zlen p >? max_size) with false by (symmetry; rewrite Z.gtb_ltb; apply Z.ltb_ge; lia).
+    unfold to_le_chk. change (256 ^ Z.of_nat 4) with 4294967296.
+    assert (0 <= zlen p) by (unfold zlen; lia). unfold max_size in Hp.
+    replace (0 <=? zlen p) with true by (symmetry; apply Z.leb_le; lia).
+    replace (zlen p <? 4294967296) with true by (symmetry; apply Z.ltb_lt; lia).
+    reflexivity.
+  Qed.
+
+  Lemma msg_ser_ok_inv m c p fr : msg_ser m c p = Ok fr ->
+    In c commands /\ zlen p <= max_size /\ fr = frame m (pad12 c) (to_le 4 (zlen p)) (checksum4 p) p.
+  Proof.
+    intros H. pose proof H as H0. unfold P2pFrame.msg_ser in H.
+    destruct (existsb (bytes_eqb c) commands) eqn:Ec; [|discriminate]. cbn [negb] in H.
+    destruct (zlen p >? max_size) eqn:Ep; [discriminate|].
+    apply existsb_bytes_In in Ec. rewrite Z.gtb_ltb in Ep; apply Z.ltb_ge in Ep.
+    rewrite (msg_ser_ok m c p Ec Ep) in H0. injection H0 as <-. auto.
+  Qed.
+
+  Lemma msg_ser_rejects m c p : ~ (In c commands /\ zlen p <= max_size) -> msg_ser m c p = Err ValueE.
+  Proof.
+    intros H. unfold P2pFrame.msg_ser.
+    destruct (existsb (bytes_eqb c) commands) eqn:Ec; [|reflexivity]. cbn [negb].
+    destruct (zlen p >? max_size) eqn:Ep; [reflexivity|].
+    apply existsb_bytes_In in Ec. rewrite Z.gtb_ltb in Ep; apply Z.ltb_ge in Ep. tauto.
+  Qed.
+
+  Lemma of_le_len4 (p : bytes) : zlen p <= max_size -> of_le (to_le 4 (zlen p)) = zlen p.
+  Proof.
+    intros H. apply of_le_to_le. change (256 ^ Z.of_nat 4) with 4294967296.
+    unfold max_size, zlen in *. lia.
+  Qed.
+
+  Lemma frame_outcome_good magic cmd body :
+    frame_outcome magic magic cmd (checksum4 body) body = Some (magic, rstrip0 cmd, body).
+  Proof. unfold frame_outcome. now rewrite !bytes_eqb_refl. Qed.
+
+  Lemma checksum4_length_le p : (length (checksum4 p) <= 4)%nat.
+  Proof. unfold P2pFrame.checksum4. rewrite firstn_length. lia. Qed.
+
+  (* ---------------------------------------------------------------- the property theorems *)
+  Hypothesis sha256_len : forall m, length (sha256 m) = 32%nat.
+
+  Lemma checksum4_length p : length (checksum4 p) = 4%nat.
+  Proof. unfold P2pFrame.checksum4, hash256. rewrite firstn_length, sha256_len. reflexivity. Qed.
+
+  Ltac side := auto using to_le_length, checksum4_length, of_le_len4; try lia.
+
+  Theorem frame_any_fragmentation : forall magic c p rest sch fuel,
+    length magic = 4%nat -> In c commands -> zlen p <= max_size ->
+    pos_sched sch -> (24 + length p <= fuel)%nat ->
+    exists fr sch' f',
+      msg_ser magic c p = Ok fr /\
+      recv_msg fuel magic (fr ++ rest, sch) = Ok ((magic, c, p), (rest, sch'), f') /\
+      (fuel <= f' + 24 + length p)%nat /\ pos_sched sch' /\ exists j, sch' = skipn j sch.
+  Proof.
+    intros magic c p rest sch fuel Hm Hc Hp Hs Hf.
+    destruct (command_facts c Hc) as (_ & Hrs & Hl12).
+    destruct (recv_msg_complete fuel magic magic (pad12 c) (to_le 4 (zlen p)) (checksum4 p) p rest sch)
+      as (sch' & f' & Hp' & Hfu & Hj & HR); side.
+    exists (frame magic (pad12 c) (to_le 4 (zlen p)) (checksum4 p) p), sch', f'.
+    split; [now apply msg_ser_ok|]. rewrite HR, frame_outcome_good, Hrs. auto.
+  Qed.
+
+  Theorem back_to_back : forall magic msgs frames rest sch fuel,
+    length magic = 4%nat -> pos_sched sch ->
+    mapM (fun cp => msg_ser magic (fst cp) (snd cp)) msgs = Ok frames ->
+    Forall (fun cp : bytes * bytes => (24 + length (snd cp) <= fuel)%nat) msgs ->
+    exists sch', pos_sched sch' /\
+      recv_msgs sha256 (length msgs) fuel magic (concat frames ++ rest, sch)
+      = Ok (map (fun cp => (magic, fst cp, snd cp)) msgs, (rest, sch')).
+  Proof.
+    intros magic msgs. induction msgs as [|[c p] msgs IH]; intros frames rest sch fuel Hm Hs HM HF.
+    - cbn in HM. injection HM as <-. exists sch. split; [exact Hs | reflexivity].
+    - cbn [mapM fst snd] in HM. apply bind_ok in HM. destruct HM as (fr & Hfr & HM).
+      apply bind_ok in HM. destruct HM as (frs & Hfrs & HM). injection HM as <-.
+      inversion HF as [|? ? HF1 HF2]; subst. cbn [snd] in HF1.
+      apply msg_ser_ok_inv in Hfr as Hinv. destruct Hinv as (Hc & Hp & _).
+      destruct (frame_any_fragmentation magic c p (concat frs ++ rest) sch fuel Hm Hc Hp Hs HF1)
+        as (fr' & sch1 & f1 & Hser & HR & _ & Hp1 & _).
+      rewrite Hfr in Hser. injection Hser as <-.
+      destruct (IH frs rest sch1 fuel Hm Hp1 Hfrs HF2) as (sch' & Hp' & HR').
+      exists sch'. split; [exact Hp'|].
+      cbn [length recv_msgs concat map fst snd]. rewrite <- app_assoc. rewrite HR. cbn [bind].
+      rewrite HR'. reflexivity.
+  Qed.
+
+  (* corrupted fields of an otherwise well-formed frame *)
+  Theorem flip_magic_rejected : forall magic magic' c p rest sch fuel,
+    length magic' = 4%nat -> magic' <> magic -> In c commands -> zlen p <= max_size ->
+    pos_sched sch -> (24 + length p <= fuel)%nat ->
+    recv_msg fuel magic (frame magic' (pad12 c) (to_le 4 (zlen p)) (checksum4 p) p ++ rest, sch) = Err ValueE.
+  Proof.
+    intros magic magic' c p rest sch fuel Hm Hne Hc Hp Hs Hf.
+    destruct (command_facts c Hc) as (_ & _ & Hl12).
+    destruct (recv_msg_complete fuel magic magic' (pad12 c) (to_le 4 (zlen p)) (checksum4 p) p rest sch)
+      as (sch' & f' & _ & _ & _ & HR); side.
+    rewrite HR. unfold frame_outcome. rewrite bytes_eqb_refl, (bytes_eqb_neq _ _ Hne). reflexivity.
+  Qed.
+
+  Theorem flip_checksum_rejected : forall magic c p chk' rest sch fuel,
+    length magic = 4%nat -> length chk' = 4%nat -> chk' <> checksum4 p -> In c commands -> zlen p <= max_size ->
+    pos_sched sch -> (24 + length p <= fuel)%nat ->
+    recv_msg fuel magic (frame magic (pad12 c) (to_le 4 (zlen p)) chk' p ++ rest, sch) = Err ValueE.
+  Proof.
+    intros magic c p chk' rest sch fuel Hm Hk Hne Hc Hp Hs Hf.
+    destruct (command_facts c Hc) as (_ & _ & Hl12).
+    destruct (recv_msg_complete fuel magic magic (pad12 c) (to_le 4 (zlen p)) chk' p rest sch)
+      as (sch' & f' & _ & _ & _ & HR); side.
+    rewrite HR. unfold frame_outcome. rewrite (bytes_eqb_neq _ _ Hne). reflexivity.
+  Qed.
+
+  (* the payload bytes are changed (same length); hypothesis: the 32-bit checksums do not collide *)
+  Theorem flip_payload_rejected : forall magic c p p' rest sch fuel,
+    length magic = 4%nat -> length p' = length p -> checksum4 p' <> checksum4 p ->
+    In c commands -> zlen p <= max_size -> pos_sched sch -> (24 + length p <= fuel)%nat ->
+    recv_msg fuel magic (frame magic (pad12 c) (to_le 4 (zlen p)) (checksum4 p) p' ++ rest, sch) = Err ValueE.
+  Proof.
+    intros magic c p p' rest sch fuel Hm Hl Hne Hc Hp Hs Hf.
+    destruct (command_facts c Hc) as (_ & _ & Hl12).
+    destruct (recv_msg_complete fuel magic magic (pad12 c) (to_le 4 (zlen p)) (checksum4 p) p' rest sch)
+      as (sch' & f' & _ & _ & _ & HR); side.
+    { rewrite of_le_len4 by exact Hp. unfold zlen. now rewrite Hl. }
+    rewrite HR. unfold frame_outcome. rewrite (bytes_eqb_neq (checksum4 p) (checksum4 p')) by congruence. reflexivity.
+  Qed.
+
+  (* the declared length is changed: the receiver takes L' bytes of what follows as the payload; hypothesis: the
+     checksum of that other byte string does not collide with the transmitted one *)
+  Theorem flip_length_rejected : forall magic c p lenb' rest sch fuel,
+    length magic = 4%nat -> length lenb' = 4%nat -> of_le lenb' <> zlen p ->
+    In c commands -> zlen p <= max_size -> pos_sched sch ->
+    (24 + length p + length rest < fuel)%nat ->
+    checksum4 (firstn (Z.to_nat (of_le lenb')) (p ++ rest)) <> checksum4 p ->
+    let r := recv_msg fuel magic (frame magic (pad12 c) lenb' (checksum4 p) p ++ rest, sch) in
+    r = Err ValueE \/ r = Err ConnE.
+  Proof.
+    intros magic c p lenb' rest sch fuel Hm Hl Hne Hc Hp Hs Hf Hcol r. subst r.
+    destruct (command_facts c Hc) as (_ & _ & Hl12).
+    set (L := of_le lenb') in *.
+    assert (HL0 : 0 <= L) by apply of_be_nonneg.
+    destruct (Z_le_gt_dec L (zlen (p ++ rest))) as [Hfit|Hshort].
+    - left. set (body := firstn (Z.to_nat L) (p ++ rest)) in *.
+      assert (Hb : zlen body = L).
+      { unfold body, zlen in *. rewrite firstn_length. lia. }
+      assert (Hsplit : p ++ rest = body ++ skipn (Z.to_nat L) (p ++ rest)) by (symmetry; apply firstn_skipn).
+      assert (Hbl : (length body <= length p + length rest)%nat).
+      { unfold body. rewrite firstn_length, app_length. lia. }
+      replace (frame magic (pad12 c) lenb' (checksum4 p) p ++ rest)
+        with (frame magic (pad12 c) lenb' (checksum4 p) body ++ skipn (Z.to_nat L) (p ++ rest)).
+      2:{ unfold frame. rewrite <- !app_assoc. now rewrite <- Hsplit. }
+      destruct (recv_msg_complete fuel magic magic (pad12 c) lenb' (checksum4 p) body
+                  (skipn (Z.to_nat L) (p ++ rest)) sch) as (sch' & f' & _ & _ & _ & HR); side.
+      rewrite HR. unfold frame_outcome.
+      rewrite (bytes_eqb_neq (checksum4 p) (checksum4 body)) by congruence. reflexivity.
+    - right. apply recv_msg_short; auto.
+      + right. unfold frame.
+        assert (Esl : slice 16 20 (magic ++ pad12 c ++ lenb' ++ checksum4 p ++ p ++ rest) = lenb').
+        { pose proof (checksum4_length p) as Hk. clear -Hm Hl12 Hl.
+          destr_len Hm. destr_len Hl12. destr_len Hl. reflexivity. }
+        rewrite <- !app_assoc. rewrite Esl. fold L.
+        pose proof (checksum4_length p) as Hk.
+        unfold zlen in *. rewrite !app_length in *. rewrite Hm, Hl12, Hl, Hk. lia.
+      + pose proof (checksum4_length p) as Hk. unfold frame. rewrite !app_length. rewrite Hm, Hl12, Hl, Hk. lia.
+  Qed.
+
+  (* the command field is outside the checksum by protocol design: another 12-byte field is accepted and
+     yields that other command with the unchanged payload *)
+  Theorem flip_command_passes : forall magic cmd' p rest sch fuel,
+    length magic = 4%nat -> length cmd' = 12%nat -> zlen p <= max_size ->
+    pos_sched sch -> (24 + length p <= fuel)%nat ->
+    exists sch' f', recv_msg fuel magic (frame magic cmd' (to_le 4 (zlen p)) (checksum4 p) p ++ rest, sch)
+                    = Ok ((magic, rstrip0 cmd', p), (rest, sch'), f').
+  Proof.
+    intros magic cmd' p rest sch fuel Hm Hc Hp Hs Hf.
+    destruct (recv_msg_complete fuel magic magic cmd' (to_le 4 (zlen p)) (checksum4 p) p rest sch)
+      as (sch' & f' & _ & _ & _ & HR); side.
+    exists sch', f'. rewrite HR, frame_outcome_good. reflexivity.
+  Qed.
+
+  (* the peer closes the connection at ANY offset inside a message: ConnectionError, within k + 1 recv calls *)
+  Theorem eof_every_offset : forall magic c p fr k sch fuel,
+    length magic = 4%nat -> msg_ser magic c p = Ok fr -> (k < length fr)%nat ->
+    pos_sched sch -> (k < fuel)%nat ->
+    recv_msg fuel magic (firstn k fr, sch) = Err ConnE.
+  Proof.
+    intros magic c p fr k sch fuel Hm Hser Hk Hs Hf.
+    apply msg_ser_ok_inv in Hser. destruct Hser as (Hc & Hp & ->).
+    destruct (command_facts c Hc) as (_ & _ & Hl12).
+    pose proof (checksum4_length p) as Hck. pose proof (to_le_length 4 (zlen p)) as Hll.
+    assert (Hfl : length (frame magic (pad12 c) (to_le 4 (zlen p)) (checksum4 p) p) = (24 + length p)%nat).
+    { unfold frame. rewrite !app_length. lia. }
+    rewrite Hfl in Hk.
+    assert (Hlen : length (firstn k (frame magic (pad12 c) (to_le 4 (zlen p)) (checksum4 p) p)) = k).
+    { rewrite firstn_length. lia. }
+    apply recv_msg_short; auto; [|now rewrite Hlen].
+    destruct (Nat.lt_ge_cases k 24) as [Hlt|Hge]; [left; now rewrite Hlen | right].
+    unfold zlen at 1. rewrite Hlen.
+    set (hdr := magic ++ pad12 c ++ to_le 4 (zlen p) ++ checksum4 p).
+    assert (Hh : length hdr = 24%nat) by (unfold hdr; rewrite !app_length; lia).
+    assert (Ef : frame magic (pad12 c) (to_le 4 (zlen p)) (checksum4 p) p = hdr ++ p).
+    { unfold frame, hdr. now rewrite <- !app_assoc. }
+    rewrite Ef. replace k with (length hdr + (k - 24))%nat by lia. rewrite firstn_app_2.
+    assert (Esl : slice 16 20 (hdr ++ firstn (k - 24) p) = to_le 4 (zlen p)).
+    { unfold hdr. generalize (to_le 4 (zlen p)) Hll. generalize (checksum4 p) Hck. generalize (pad12 c) Hl12.
+      clear -Hm. intros l1 H1 l2 H2 l3 H3. destr_len Hm. destr_len H1. destr_len H3. reflexivity. }
+    rewrite Esl, of_le_len4 by exact Hp. unfold zlen. lia.
   Qed.
 End WithHash.
